@@ -953,6 +953,10 @@ class Interp:
             r = self.cmp_oracle(path, t[1], t[2], t[3])
             if r is not None:
                 return r
+        if self.cmp_oracle is not None and t[0] == "bin" and t[1] == "SubOvf" and not path.tags.get(("signed", t)):
+            r = self.cmp_oracle(path, "Lt", t[2], t[3])  # unsigned a - b overflows iff a < b
+            if r is not None:
+                return r
         if t[0] in ("bin", "un", "cast", "w"):
             bv = bitvec(t, path)
             return bv_value(bv)
@@ -1323,6 +1327,24 @@ class Interp:
             if v[0] == "agg" and v[1] == OPTION:
                 return self._multi(path, frame, t, [(NONE, path)], depth)
             return self._multi(path, frame, t, [(ERR(("residual", v)), path)], depth)
+        # --- ranges over ground scalars / field-less enum constants (derived PartialOrd = discriminant order)
+        if name.startswith("std::ops::RangeInclusive::<") and name.endswith(">::new") and len(args) == 2:
+            return self._multi(path, frame, t, [(("agg", "adt:std::ops::RangeInclusive", None, (args[0], args[1])), path)], depth)
+        if name.startswith("std::ops::Range") and "::contains" in name and len(args) == 2:
+            rg = self._deref_all(path, args[0])
+            x = self._deref_all(path, args[1])
+            if rg[0] == "agg" and len(rg[3]) >= 2:
+                lo, hi, xo = self.scalar_rank(rg[3][0]), self.scalar_rank(rg[3][1]), self.scalar_rank(x)
+                kind = rg[1].rsplit("::", 1)[1]
+                if None not in (lo, hi, xo) and lo[0] == hi[0] == xo[0] and kind in ("Range", "RangeInclusive"):
+                    r = lo[1] <= xo[1] <= hi[1] if kind == "RangeInclusive" else lo[1] <= xo[1] < hi[1]
+                    return self._multi(path, frame, t, [(INT(int(r), 8), path)], depth)
+        if (" as std::cmp::PartialOrd>::" in name or " as std::cmp::PartialEq>::" in name) and len(args) == 2:
+            meth = name.rsplit("::", 1)[1]
+            a, b = self.scalar_rank(self._deref_all(path, args[0])), self.scalar_rank(self._deref_all(path, args[1]))
+            if a is not None and b is not None and a[0] == b[0] and a[0] != "int" and meth in ("lt", "le", "gt", "ge", "eq", "ne"):
+                r = {"lt": a[1] < b[1], "le": a[1] <= b[1], "gt": a[1] > b[1], "ge": a[1] >= b[1], "eq": a[1] == b[1], "ne": a[1] != b[1]}[meth]
+                return self._multi(path, frame, t, [(INT(int(r), 8), path)], depth)
         # --- conversions
         if name.endswith("::into") or name.endswith("::from") or name.endswith("::try_into") or name.endswith("::try_from"):
             g = t["f"].get("gargs", [])
@@ -1591,6 +1613,18 @@ class Interp:
                 cargs = list(tup[3]) if tup[0] == "agg" else []
                 return self._inline(path, frame, t, cb, cargs, depth)
         path.events.append(("unknown_closure_call", env, F.site_str(frame.body, t["sp"])))
+        return None
+
+    def scalar_rank(self, v):
+        """(domain, rank) of a ground integer or a constant of a field-less enum (rank = discriminant), else None"""
+        while v[0] in ("w",):
+            v = v[1]
+        if is_int(v):
+            return ("int", v[1])
+        if v[0] == "agg" and v[1].startswith("adt:") and v[2] is not None and not v[3]:
+            ev = self.F.enum_variant(v[1][4:], v[2])
+            if ev is not None:
+                return (v[1], ev[1])
         return None
 
     def minmax(self, path, meth, a, b, bits, signed):
